@@ -11,7 +11,7 @@
    Phase 2 (later calls, sequential): the woken flag of the last scheduled poll's waker is read, the
    driver is polled again, every stream handle that still exists raises a second error (a read fails),
    then a third one (a write fails), the driver runs shutdown() on the lost transport, the driver is
-   polled a last time.
+   polled a last time; shutdown() is also called right after the second poll, while the transport still works.
 
    Everything here is a composition of `step`s (see Proofs/SharedErrProofs.v, run_case_reachable). *)
 From H3V Require Import Base.Bytes Gen.GenCodes Gen.GenSharedErr Spec.FirstErrorWins Model.SharedErr.
@@ -118,8 +118,8 @@ Definition complete (c : cfg) (npolls : nat) (p1 : poll_spec) (errs : list err) 
 
 Definition d_poll (c : cfg) (p : poll_spec) (w : world) : world :=
   d_finish 40 c (step c w (ABegin (fst p) (snd p))).
-Definition d_call (c : cfg) (e : err) (w : world) : world :=
-  d_finish 40 c (step c w (ACall e)).
+Definition d_shutdown (c : cfg) (r : option err) (w : world) : world :=
+  d_finish 40 c (step c w (AShutdown r)).
 Definition s_raise (c : cfg) (w : world) (i : nat) (e : err) : world :=
   s_finish 40 c (step c w (ARaise i e)) i.
 
@@ -137,13 +137,13 @@ Fixpoint raise_all (c : cfg) (w : world) (i : nat) (es : list (option err)) : wo
 
 Record result := {
   r_d1 : option event; r_woken : bool; r_s1 : list (option cerr);
-  r_d2 : option event; r_s2 : list (option cerr); r_s3 : list (option cerr);
+  r_d2 : option event; r_d2s : option event; r_s2 : list (option cerr); r_s3 : list (option cerr);
   r_d4 : option event; r_d3 : option event;
   r_close : list N; r_final : world }.
 
 Definition seq0 (k : nat) : list nat := seq 0 k.
 
-(* d4: a driver call that is not a poll (shutdown) and fails in the transport with e4 *)
+(* d2s: shutdown() while the transport still works; d4: shutdown() whose GOAWAY write, if it gets that far, fails with e4 *)
 Definition run_case (c : cfg) (k : nat) (setup : option poll_spec) (npolls : nat) (p1 : poll_spec) (errs : list err)
            (sched : list nat) (p2 : poll_spec) (errs2 errs3 : list (option err)) (e4 : option err) : result :=
   let w0 := match setup with Some p => d_poll c p (init k) | None => init k end in
@@ -153,14 +153,15 @@ Definition run_case (c : cfg) (k : nat) (setup : option poll_spec) (npolls : nat
   let r3 := complete c npolls p1 errs r2 O in
   let w1 := rw r3 in
   let w2 := d_poll c p2 w1 in
-  let (w3a, s2) := raise_all c w2 O errs2 in
+  let w2s := d_shutdown c None w2 in
+  let (w3a, s2) := raise_all c w2s O errs2 in
   let (w3, s3) := raise_all c w3a O errs3 in
-  let w3b := match e4 with Some e => d_call c e w3 | None => w3 end in
+  let w3b := d_shutdown c e4 w3 in
   let w4 := d_poll c p2 w3b in
   {| r_d1 := last_dev (trace w1); r_woken := woken w1;
      r_s1 := map (fun i => last_srep i (trace w1)) (seq0 k);
-     r_d2 := last_dev (trace w2); r_s2 := s2; r_s3 := s3;
-     r_d4 := match e4 with Some _ => last_dev (trace w3b) | None => None end;
+     r_d2 := last_dev (trace w2); r_d2s := last_dev (trace w2s); r_s2 := s2; r_s3 := s3;
+     r_d4 := last_dev (trace w3b);
      r_d3 := last_dev (trace w4);
      r_close := closes (obs w4); r_final := w4 |}.
 
